@@ -250,6 +250,46 @@ def P(pid):
 
 ALL = ['C%02d' % i for i in range(1, 20)]
 
+# positive controls (thorough tier): patches that break the property; the property's own quick check must report each of them.
+# unfix-* = reverse of a `fix:` commit of /repo; seeded/* = changes written by independent sub-agents (see DESIGN.md section 6).
+CONTROLS = {
+    'C01': ['seeded/C01-a/patch.diff'],
+    'C02': ['seeded/C02-a/patch.diff', 'seeded/C04-a/patch.diff'],
+    'C03': ['seeded/C03-a/patch.diff', 'seeded/C09-a/patch.diff'],
+    'C04': ['selftest/mutants/unfix-4e31b69.patch', 'seeded/C04-a/patch.diff'],
+    'C05': ['seeded/C05-a/patch.diff'],
+    'C06': ['seeded/C06-a/patch.diff'],
+    'C07': ['seeded/C07-a/patch.diff'],
+    'C08': ['selftest/mutants/unfix-928b770.patch', 'selftest/mutants/unfix-05eab20.patch', 'selftest/mutants/unfix-6597d81.patch', 'seeded/C08-a/patch.diff'],
+    'C09': ['selftest/mutants/unfix-928b770.patch', 'selftest/mutants/unfix-4e31b69.patch', 'seeded/C09-a/patch.diff'],
+    'C10': ['seeded/C10-a/patch.diff'],
+    'C11': ['seeded/C11-a/patch.diff'],
+    'C12': ['selftest/mutants/unfix-ae1f505.patch', 'seeded/C12-a/patch.diff'],
+    'C13': ['selftest/mutants/unfix-4faa0f0.patch'],
+    'C14': ['selftest/mutants/unfix-2e6b8d5.patch', 'selftest/mutants/unfix-2d01ace.patch'],
+    'C15': ['selftest/mutants/unfix-2d01ace.patch'],
+    'C16': ['selftest/mutants/unfix-b52ed69.patch'],
+    'C17': [],
+    'C18': [],
+    'C19': [],
+}
+
+# rules that are also evaluated on the other production configurations in the thorough tier (guards against feature-gated divergence)
+def thorough_extra(pid):
+    R = []
+    if pid in ('C01', 'C02', 'C04', 'C10', 'C11'):
+        for cfg in ('prod-default', 'prod-bbs'):
+            R.append(('RF-C hash binding @%s' % cfg, (lambda cfg: lambda c: rf_hash.rule_hash_binding(c, {k: v for k, v in rf_hash.BBS_TABLE.items() if cfg != 'prod-bbs' or not k.endswith('finalize_blind_sign')}, BBS_SCOPE, cfg=cfg))(cfg), 40))
+            R.append(('RF-B plain interface constants @%s' % cfg, (lambda cfg: lambda c: rf_consts.rule_interface_constants(c, PLAIN_ENTRIES, cfg=cfg))(cfg), 15))
+    if pid in ('C07', 'C03', 'C05'):
+        R.append(('RF-G1 provenance @prod-default', lambda c: rf_rand.rule_randomness_provenance(c, cfg='prod-default'), 8))
+    if pid in ('C08',):
+        R.append(('RF-F panic census @prod-default', lambda c: rf_panic.rule_panic_census(c, cfg='prod-default'), 150))
+    if pid in ('C07', 'C10', 'C12', 'C11'):
+        for cfg in ('prod-default', 'prod-bbs'):
+            R.append(('RF-S shared state @%s' % cfg, (lambda cfg: lambda c: rf_consts.rule_shared_state(c, cfg=cfg))(cfg), 3))
+    return R
+
 if __name__ == '__main__':
     ap = argparse.ArgumentParser()
     ap.add_argument('pid')
@@ -259,4 +299,8 @@ if __name__ == '__main__':
     if not rules:
         print('property %s has no registered rules' % a.pid)
         sys.exit(2)
-    sys.exit(run_property(a.pid, a.tier, rules, meta))
+    controls = []
+    if a.tier == 'thorough':
+        rules = rules + thorough_extra(a.pid)
+        controls = CONTROLS.get(a.pid, [])
+    sys.exit(run_property(a.pid, a.tier, rules, meta, controls=controls))
